@@ -2,6 +2,7 @@ package main
 
 import (
 	"fmt"
+	"math"
 	"sort"
 
 	"github.com/welllog/golib/algz"
@@ -40,6 +41,21 @@ func c18Breaker(kind, salt int64) []func(old, new []int) bool {
 	}
 }
 
+// unliftable items: the weight tokens 1000+j, 1100+j, 1200 stand for MaxInt-j, MaxInt/2+1+j and 2^62 in the call of the
+// implementation.  For the model they are the weights 1000.. (no limit of a case reaches them; it computes in Z, where
+// nothing wraps); for the implementation they are the values whose sums wrap around.
+func c18Weight(t int64) int {
+	switch {
+	case t >= 1200:
+		return 1 << 62
+	case t >= 1100:
+		return math.MaxInt64/2 + 1 + int(t-1100)
+	case t >= 1000:
+		return math.MaxInt64 - int(t-1000)
+	}
+	return int(t)
+}
+
 func c18Ints(l []int) []int64 {
 	o := make([]int64, len(l))
 	for i, x := range l {
@@ -56,7 +72,7 @@ func c18Impl(in []int64) []int64 {
 		v := make([]int, n)
 		items := make([]int, n)
 		for i := 0; i < n; i++ {
-			w[i], v[i], items[i] = int(in[5+2*i]), int(in[6+2*i]), i
+			w[i], v[i], items[i] = c18Weight(in[5+2*i]), int(in[6+2*i]), i
 		}
 		r := algz.Knapsack(int(W), items, func(i int) int { return w[i] }, func(i int) int { return v[i] }, c18Breaker(bk, salt)...)
 		return c18Ints(r)
@@ -292,6 +308,12 @@ func c18Gen(c *Ctx) {
 			W = r.Int63n(sw + 2)
 		}
 		fam := "knapsack/random"
+		if i%11 == 5 { // items that can never be carried: weights at and near the top of int (their sum wraps around)
+			for k, m := 0, 1+r.Intn(3); k < m; k++ {
+				ws[r.Intn(n)] = []int64{1000, 1001, 1100, 1200, 1000 + int64(r.Intn(9)), 1100 + int64(r.Intn(9))}[r.Intn(6)]
+			}
+			fam = "knapsack/unliftable-items"
+		}
 		if i%97 == 0 { // outside the property: negative limit or weight panics
 			if r.Intn(2) == 0 {
 				W = -int64(1 + r.Intn(3))
@@ -462,7 +484,7 @@ func c18Describe(in []int64) string {
 		if len(in) < 5 {
 			return "?"
 		}
-		return fmt.Sprintf("Knapsack(maxWeight=%d, tie-breaker %d/%d, items (weight,value)=%v)", in[1], in[2], in[3], in[5:])
+		return fmt.Sprintf("Knapsack(maxWeight=%d, tie-breaker %d/%d, items (weight,value)=%v; weight tokens 1000+j / 1100+j / 1200 are passed as MaxInt-j / MaxInt/2+1+j / 2^62)", in[1], in[2], in[3], in[5:])
 	case 1:
 		if len(in) < 6 {
 			return "?"
